@@ -398,7 +398,13 @@ def build_classes(world):
             if p.get('dtype'):
                 kw['dtype'] = {'int': int, 'str': str, 'float': float, 'bool': bool, 'list': list, 'dict': dict, 'Path': Path}[p['dtype']]
             par_list.append(Parameter(p['name'], **kw))
+        seen_patterns = set()
         for inp in c['inputs']:
+            if inp.get('form') == 'pattern':
+                if inp['pattern'] not in seen_patterns:
+                    seen_patterns.add(inp['pattern'])
+                    in_list.append('~' + inp['pattern'])
+                continue
             if inp.get('optional') == 'absent':
                 ref = inp['name']
             else:
@@ -579,8 +585,11 @@ class Renderer:
         # file forms
         d = self.cfgdir / tag
         d.mkdir(parents=True, exist_ok=True)
-        ext = 'json' if form == 'json' else 'yaml'
+        ext = 'json' if form in ('json', 'multi_json') else 'yaml'
         written = {}
+        multi = form.startswith('multi')
+        parts = {}
+        multi_path = d / f'all{name_suffix}.{ext}'
 
         def path_of(ci):
             return d / f'{world["configs"][ci]["name"]}{name_suffix}.{ext}'
@@ -597,16 +606,35 @@ class Renderer:
                 slots = _perm(slots, render['perm'] + 7 * ci)
             for slot, fill in slots:
                 p = wr(fill)
-                ref = str(p) if not render.get('uses_placeholder') else str(p).replace(str(self.cfgdir), '{CFG_DIR}')
+                if multi:
+                    ref = str(p)        # '#part' reference, resolved inside the multi-config file
+                else:
+                    ref = str(p) if not render.get('uses_placeholder') else str(p).replace(str(self.cfgdir), '{CFG_DIR}')
                 uses.append(f'{ref} as {slot["ns"]}' if slot['ns'] else ref)
             if uses:
                 data['uses'] = uses if len(uses) > 1 or render.get('perm', 0) % 3 else uses[0]
+            if multi:
+                part = f'{cfg["name"]}{name_suffix}'
+                parts[part] = data
+                written[ci] = '#' + part
+                return written[ci]
             p = path_of(ci)
             self._dump(p, data, ext)
             written[ci] = p
             return p
         top = wr(root['cfg'])
-        if render.get('uses_placeholder'):
+        if multi:
+            root_part = top[1:]
+            if render.get('main_part', True):
+                parts[root_part]['main_part'] = True
+                top = multi_path
+            else:
+                top = f'{multi_path}#{root_part}'
+            items = list(parts.items())
+            if render.get('perm'):
+                items = _perm(items, render['perm'])
+            self._dump(multi_path, {'configs': dict(items)}, ext)
+        if render.get('uses_placeholder') and not multi:
             gv = dict(gv or {})
             gv['CFG_DIR'] = str(self.cfgdir)
         if outer:
@@ -619,6 +647,19 @@ class Renderer:
             ctx = cp
         elif render.get('ctx_form') == 'list' and ctx is not None:
             ctx = self._split_ctx(ctx, d, ext, name_suffix)
+        elif render.get('ctx_form') == 'uses' and ctx is not None:
+            # per-namespace entries as separate context files pulled in by `uses: "<file> as <namespace>"`
+            fns = ctx.pop('for_namespaces', {})
+            uses = []
+            for k_, (ns_, vals_) in enumerate(sorted(fns.items())):
+                fp = d / f'ctxuse{k_}{name_suffix}.{ext}'
+                self._dump(fp, vals_, ext)
+                uses.append(f'{fp} as {ns_}')
+            if uses:
+                ctx['uses'] = uses if len(uses) > 1 else uses[0]
+            cp = d / f'ctxmain{name_suffix}.{ext}'
+            self._dump(cp, ctx, ext)
+            ctx = cp
         return Config(self.store, top, context=ctx, global_vars=gv)
 
     def _dump(self, p, data, ext):
@@ -755,7 +796,15 @@ class Proc:
         if chain is None:
             return {'skip': 'no chain'}
         try:
-            t = chain[op['task']]
+            via = op.get('via', 'item')
+            if via == 'attr' and op['task'].isidentifier():
+                t = getattr(chain, op['task'])
+            elif via == 'get':
+                t = chain.get(op['task'])
+            elif via == 'tasks':
+                t = chain.tasks[op.get('name', op['task'])]
+            else:
+                t = chain[op['task']]
         except Exception as e:
             return {'lookup_err': [type(e).__name__, str(e)[:300]]}
         if t is None:
@@ -825,6 +874,8 @@ class Proc:
         if chain is None:
             return {'skip': 'no chain'}
         tasks = op['tasks'] if len(op['tasks']) != 1 or not op.get('single_as_str') else op['tasks'][0]
+        if op.get('as_objects'):
+            tasks = [chain[t] for t in op['tasks']] if not isinstance(tasks, str) else chain[tasks]
         try:
             chain.force(tasks, recompute=op.get('recompute', False), delete_data=op.get('delete', False))
         except Exception as e:
@@ -940,6 +991,21 @@ def run_process(job, out_fd):
     pr.classes = build_classes(job['world'])
     pr.renderer = Renderer(job['world'], pr.classes, pr.cfgdir, pr.stores / 'main')
     sys.addaudithook(_hook)
+    cover = None
+    if os.environ.get('TCSIM_COVER'):
+        # diagnostic only: which lines of taskchain does the simulation execute
+        cover = set()
+        import taskchain as _tc
+        base = os.path.dirname(_tc.__file__)
+
+        def _tr(frame, event, arg):
+            fn = frame.f_code.co_filename
+            if not fn.startswith(base):
+                return None
+            if event == 'line':
+                cover.add((fn[len(base) + 1:], frame.f_lineno))
+            return _tr
+        sys.settrace(_tr)
     for op in job['ops']:
         ST.inv = []
         ST.fs = []
@@ -960,4 +1026,8 @@ def run_process(job, out_fd):
         ST.crash_at = None
         ST.err_at = None
         _emit({'i': op['i'], 'res': res, 'inv': ST.inv, 'fs': ST.fs, 'fired': ST.fired, 'clock': [clock0, ST.clock.base + ST.clock.ticks]})
+    if cover is not None:
+        sys.settrace(None)
+        _emit({'done': True, 'cover': sorted(cover)})
+        return
     _emit({'done': True})
